@@ -589,8 +589,12 @@ def _tnag_one_state(cx, rng, tn, geo, dtype, how, rep):
         variants = [("explicit", [allsites], False, "prod"), ("explicit", [allsites], False, "sum")]
         if mindeg >= 2:
             variants += [("explicit", [allsites], True, "prod"), ("int", n, False, "prod"), ("int", n, True, "sum")]
-        for (gl, gloops, autoreduce, combine), nrm in itertools.product(variants, (True, False)):
+        # normalized: True / False and the documented strings 'local' and 'separate' (each region divided by its own norm /
+        # sum of values over sum of norms: with a spanning loop both are the normalised value, for either combine)
+        for (gl, gloops, autoreduce, combine), nrm in itertools.product(variants, (True, False, "local", "separate")):
             if cx.quick and gl == "int" and n > 6:
+                continue
+            if isinstance(nrm, str) and (gl != "explicit" or autoreduce):
                 continue
             gv = [("dict", gauges if gauges is not None else {})]
             if gauges is None and combine == "prod" and gl == "explicit" and not autoreduce:
@@ -603,18 +607,21 @@ def _tnag_one_state(cx, rng, tn, geo, dtype, how, rep):
                          dnx=dnx, gtol=gtol):
                     r = tnx.local_expectation_gloop_expand(G, w, gloops=gloops, gauges=garg, normalized=nrm,
                                                            autoreduce=autoreduce, combine=combine, optimize=opt)
-                    return cmp_scalar(r, dnx.expec(G, w, nrm), dnx.scale(G, nrm), gtol)
+                    return cmp_scalar(r, dnx.expec(G, w, bool(nrm)), dnx.scale(G, bool(nrm)), gtol)
 
                 cx.check("local_expectation_gloop_expand with a generalized loop spanning the network == dense value", p, t_gl)
         if ring:
-            for (sl, autoreduce), nrm in itertools.product((("int", False), ("explicit", False), ("int", True)), (True, False)):
+            for (sl, autoreduce), nrm in itertools.product((("int", False), ("explicit", False), ("int", True)),
+                                                           (True, False, "local", "separate")):
+                if isinstance(nrm, str) and (sl != "explicit" or autoreduce):
+                    continue
                 p = dict(base, where=jw(w), normalized=nrm, gauges=gname, sloops=sl, autoreduce=autoreduce)
 
                 def t_sl(w=w, G=G, nrm=nrm, sl=sl, autoreduce=autoreduce, tnx=tnx, gauges=gauges, dnx=dnx, gtol=gtol):
                     sloops = n if sl == "int" else tuple(tnx.gen_sloops(n))
                     r = tnx.local_expectation_sloop_expand(G, w, sloops=sloops, gauges=gauges, normalized=nrm,
                                                            autoreduce=autoreduce, optimize=opt)
-                    return cmp_scalar(r, dnx.expec(G, w, nrm), dnx.scale(G, nrm), gtol)
+                    return cmp_scalar(r, dnx.expec(G, w, bool(nrm)), dnx.scale(G, bool(nrm)), gtol)
 
                 cx.check("local_expectation_sloop_expand on a ring (the loop is the network) == dense value", p, t_sl)
     for (gname, tnx, gauges, dnx), nrm in itertools.product(gauge_sets, (True, False, "global")):
@@ -884,7 +891,7 @@ def _mps_one_state(cx, rng, mps, L, cyclic, dtype, how, rep):
                 tt = {(w[0] if len(w) == 1 else w): G for w, G in terms.items()}
             else:
                 tt = terms
-            for inplace, ik in ((False, "None"), (True, "record"), (False, "record")):
+            for inplace, ik in ((False, "None"), (True, "record"), (False, "record"), (False, "empty")):
                 if method == "envs" and (inplace or ik != "None"):
                     continue
                 if key_form == "bare-int" and (inplace or ik != "None" or not ra):
@@ -897,27 +904,32 @@ def _mps_one_state(cx, rng, mps, L, cyclic, dtype, how, rep):
 
                 def t_cle(m3=m3, i3=i3, before=before, method=method, nrm=nrm, ra=ra, tt=tt, inplace=inplace, via=0):
                     kw = dict(normalized=nrm, return_all=ra)
-                    if via == 0:
-                        if method == "canonical":
-                            kw.update(info=i3, inplace=inplace)
-                        r = m3.compute_local_expectation(tt, method=method, **kw)
-                    elif method == "canonical":
-                        r = m3.compute_local_expectation_canonical(tt, info=i3, inplace=inplace, **kw)
-                    else:
-                        r = m3.compute_local_expectation_via_envs(tt, **kw)
                     sc = max(dn.scale(G, nrm) for G in tt.values())
                     refs = {k: dn.expec(G, k if isinstance(k, tuple) else (k,), nrm) for k, G in tt.items()}
-                    if ra:
-                        if set(r) != set(tt):
-                            return f"keys {list(r)} != {list(tt)}"
-                        for k in tt:
-                            e = cmp_scalar(r[k], refs[k], sc, tol, f"term {k}")
+                    # a caller-supplied record is threaded through a SECOND identical call: whatever the first call wrote
+                    # into it must be true of the state the caller holds
+                    ncalls = 2 if (method == "canonical" and i3 is not None) else 1
+                    for call in range(ncalls):
+                        what = "" if call == 0 else "second call with the same info record: "
+                        if via == 0:
+                            if method == "canonical":
+                                kw.update(info=i3, inplace=inplace)
+                            r = m3.compute_local_expectation(tt, method=method, **kw)
+                        elif method == "canonical":
+                            r = m3.compute_local_expectation_canonical(tt, info=i3, inplace=inplace, **kw)
+                        else:
+                            r = m3.compute_local_expectation_via_envs(tt, **kw)
+                        if ra:
+                            if set(r) != set(tt):
+                                return f"{what}keys {list(r)} != {list(tt)}"
+                            for k in tt:
+                                e = cmp_scalar(r[k], refs[k], sc, tol, f"{what}term {k}")
+                                if e:
+                                    return e
+                        else:
+                            e = cmp_scalar(r, sum(refs.values()), sc * len(tt), tol, f"{what}sum of terms")
                             if e:
                                 return e
-                    else:
-                        e = cmp_scalar(r, sum(refs.values()), sc * len(tt), tol, "sum of terms")
-                        if e:
-                            return e
                     if not inplace and not _tensors_equal(m3, before):
                         return "inplace=False but the tensors of the state were modified"
                     if np.abs(Dense(m3).psi - dn.psi).max() > 30 * tol * dn.norm2 ** 0.5:
